@@ -219,3 +219,55 @@ Proof.
     intros j Hj. destruct j as [|j]; [cbn [nth]; rewrite Hx; exact G|cbn [nth]; apply D3; lia].
   - cbv beta. exists 0%nat. cbn [length nth skipn fst snd]. rewrite Hx. repeat split; try lia; try (intros j Hj; lia); lra.
 Qed.
+
+(* ---- Zeta: every returned x was proposed as floor(u^(-1/(s-1))) and accepted with v <= zeta_accept (s-1) x ------ *)
+From RD Require Import Proofs.PmfZeta.
+
+Lemma zeta_loop_event fuel : forall t s ws, 1 < dyR s -> Forall word ws ->
+  allout (fun q => fst q = (-1)%Z \/
+            exists U V, 0 < U <= 1 /\ 0 <= V < 1 /\ fst q = Zfloor (Rpower U (- 1 / (dyR s - 1))) /\ (1 <= fst q)%Z /\
+                        V <= zeta_accept (dyR s - 1) (IZR (fst q)))
+         nopanic (zeta_loop fuel t (dyx s -. one) (epow (num 2) (dyx s -. one)) ws).
+Proof.
+  induction fuel as [|f IH]; intros t s ws Hs Hw; [exact nopanic2|].
+  destruct ws as [|w ws]; cbn [zeta_loop]; lstep; [exact nopanic1|].
+  apply Forall_cons_iff in Hw. destruct Hw as [Hw0 Hws].
+  pose proof (uR_oc_range t w Hw0) as HU. set (SM := dyR s - 1) in * .
+  assert (Exe : evalX (epow (u_oc t w) (num (-1) /. (dyx s -. one))) = Xreal (Rpower (uR_oc t w) (- 1 / SM))).
+  { unfold epow. cbn [evalX xbin]. rewrite u_oc_eval, num_eval, dyx_eval, one_eval.
+    change (Xreal (dyR s) - Xreal 1)%XR with (Xreal SM). rewrite Xdiv_nz by (unfold SM; lra).
+    rewrite Xpow_pos by lra. reflexivity. }
+  intros xv yv Ex _. rewrite Exe in Ex. assert (xv = Rpower (uR_oc t w) (- 1 / SM)) as -> by congruence. clear Ex.
+  destruct (rcmp CGe (Rpower (uR_oc t w) (- 1 / SM)) yv); lstep; [left; reflexivity|].
+  unfold sfloor. cbn [sbind bind allout]. intros x0 Ex0. rewrite Exe in Ex0. assert (x0 = Rpower (uR_oc t w) (- 1 / SM)) as -> by congruence. clear Ex0.
+  set (x := Zfloor (Rpower (uR_oc t w) (- 1 / SM))).
+  assert (1 <= x)%Z as Hx1.
+  { apply Zfloor_lub. apply (zeta_proposal_ge_1 (dyR s) (uR_oc t w)); [exact Hs|exact HU]. }
+  assert (1 <= IZR x) as Hx1R by (apply (IZR_le 1); exact Hx1).
+  destruct ws as [|w2 ws2]; lstep; [exact nopanic1|]. apply Forall_cons_iff in Hws. destruct Hws as [Hw2 Hws2].
+  pose proof (uR_std_range t w2 Hw2) as HV.
+  intros lhs rhs El Er.
+  (* values of the two sides of the test *)
+  assert (Ett : evalX (epow (one +. one /. num x) (dyx s -. one)) = Xreal (zeta_t SM (IZR x))).
+  { unfold epow. cbn [evalX xbin]. rewrite one_eval, num_eval, dyx_eval.
+    rewrite Xdiv_nz by lra. change (Xreal 1 + Xreal (1 / IZR x))%XR with (Xreal (1 + 1 / IZR x)).
+    change (Xreal (dyR s) - Xreal 1)%XR with (Xreal SM).
+    rewrite Xpow_pos; [reflexivity|]. assert (0 < 1 / IZR x) by (apply Rdiv_lt_0_compat; lra). lra. }
+  assert (Eb : evalX (epow (num 2) (dyx s -. one)) = Xreal (zeta_b SM)).
+  { unfold epow. cbn [evalX xbin]. rewrite num_eval, dyx_eval, one_eval. change (Xreal (dyR s) - Xreal 1)%XR with (Xreal SM).
+    rewrite Xpow_pos by lra. reflexivity. }
+  set (tte := epow (one +. one /. num x) (dyx s -. one)) in * . set (be := epow (num 2) (dyx s -. one)) in * .
+  assert (lhs = uR_std t w2 * IZR x * (zeta_t SM (IZR x) - 1) * zeta_b SM) as ->.
+  { change (evalX (u_std t w2 *. num x *. (tte -. one) *. be))
+      with (Xmul (Xmul (Xmul (evalX (u_std t w2)) (evalX (num x))) (Xsub (evalX tte) (evalX one))) (evalX be)) in El.
+    rewrite u_std_eval, num_eval, Ett, one_eval, Eb in El. cbn in El. congruence. }
+  assert (rhs = zeta_t SM (IZR x) * (zeta_b SM - 1)) as ->.
+  { change (evalX (tte *. (be -. one))) with (Xmul (evalX tte) (Xsub (evalX be) (evalX one))) in Er.
+    rewrite Ett, Eb, one_eval in Er. cbn in Er. congruence. }
+  clear El Er.
+  match goal with |- allout _ _ ((if rcmp CLe ?l ?r then _ else _) _) => destruct (rcmp CLe l r) eqn:R1 end; lstep; [|apply IH; assumption].
+  unfold rcmp in R1.
+  match type of R1 with (if Rle_dec ?l ?r then _ else _) = _ => destruct (Rle_dec l r) as [G|]; [|discriminate] end.
+  cbv beta. cbn [fst]. right. exists (uR_oc t w), (uR_std t w2). repeat split; try lra; try assumption.
+  apply (zeta_accept_test (dyR s) (IZR x) (uR_std t w2) Hs ltac:(lra)). exact G.
+Qed.
